@@ -85,6 +85,84 @@ def gen(ctx):
     return corpus + seqs, n_exh
 
 
+def aset_words(ctx):
+    """the Zwerg words over address sets (builtin-aset.cc, value-aset.cc: comparison, length, elem, low / high, ?contains,
+    ?overlaps, add / sub / overlap) through the query harness, against sets of integers computed here and against the model"""
+    from . import zwcorr, dwcorr
+    if ctx.replay:
+        return 0, 0
+    h = zwcorr.Harness(ctx)
+    rng = ctx.rng
+    n = 150 if ctx.tier == "quick" else 4000
+    M64 = 1 << 64
+
+    def term(base):
+        """(expression text, set of addresses)"""
+        lo = base + rng.randrange(0, 12)
+        ln = rng.choice([0, 1, 1, 2, 3, 5])
+        if lo + ln >= M64 - 1:
+            ln = max(0, M64 - 2 - lo)
+        return "%d %d aset" % (lo, lo + ln), set(range(lo, lo + ln))          # `lo hi aset` is [lo, hi)
+
+    def expr(base, depth=0):
+        e, st = term(base)
+        for _ in range(rng.choice([0, 1, 1, 2, 3])):
+            e2, s2 = term(base)
+            w = rng.choice(["add", "add", "sub", "overlap"])
+            e = "%s %s %s" % (e, e2, w)
+            st = st | s2 if w == "add" else st - s2 if w == "sub" else st & s2
+        return e, st
+    progs, want = [], []
+    for _ in range(n):
+        base = rng.choice([0, 0, 16, (1 << 32) - 5, (1 << 63) - 6, M64 - 40])
+        (a, sa), (b, sb) = expr(base), expr(base)
+        if rng.random() < 0.25:
+            # same starts, different lengths; or the very same set built another way
+            lo = base + rng.randrange(0, 8)
+            l1, l2 = rng.choice([(3, 4), (4, 3), (1, 2), (5, 5)])
+            a, sa, b, sb = "%d %d aset" % (lo, lo + l1), set(range(lo, lo + l1)), "%d %d aset" % (lo, lo + l2), set(range(lo, lo + l2))
+            if rng.random() < 0.5:
+                b, sb = "%d %d aset %d %d aset add" % (lo, lo + 1, lo + 1, lo + l2), set(range(lo, lo + l2))
+        checks = [("%s %s ?eq" % (a, b), sa == sb), ("%s %s ?ne" % (a, b), sa != sb),
+                  ("%s %s ?overlaps" % (a, b), bool(sa & sb)), ("%s %s ?contains" % (a, b), sb <= sa),
+                  ("%s length" % a, len(sa)), ("[%s elem]" % a, sorted(sa)),
+                  ("[%s (low, high)]" % a, [min(sa), max(sa) + 1] if sa else None)]
+        k = rng.sample(checks, 3)
+        for q, w in k:
+            progs.append(q)
+            want.append(w)
+    recs, crashes = h.run_impl_robust(["Q - " + zwcorr.hx(q) for q in progs])
+    mrecs = h.run_model(["Q - " + zwcorr.hx(q) for q in progs])
+    ok = 0
+    for q, w, r, m in zip(progs, want, recs, mrecs):
+        if r.err == "crash":
+            ctx.violation("the library crashed on %r" % q, {"stream": "C16-words", "input": q})
+            continue
+        if isinstance(w, bool):
+            got = (len(r.res) > 0) if not r.err else r.err
+            good = got == w
+        elif isinstance(w, int):
+            vals = dwcorr.parse_vals(r.res[0]) if r.res else []
+            got = vals[-1][2] if vals and vals[-1][0] == "c" else r.err
+            good = got == w
+        elif w is None:
+            got = r.err or r.res
+            good = True            # low / high of an empty set: whatever the library does (an error), it is not a set question
+        else:
+            vals = dwcorr.parse_vals(r.res[0]) if r.res else []
+            got = [x[2] for x in vals[-1][1]] if vals and vals[-1][0] == "q" else r.err
+            good = got == w
+        if not good:
+            ctx.violation("address-set word: `%s` gives %r, the sets of addresses say %r" % (q, got, w),
+                          {"stream": "C16-words", "input": q, "got": repr(got), "expected": repr(w), "theorem": "ZwVerif.C16.canonical_unique"})
+        elif zwcorr.diff(r, m) is not None and w is not None:
+            ctx.violation("address-set word: `%s`: implementation (which agrees with the sets) and model differ: %s" % (q, zwcorr.diff(r, m)),
+                          {"stream": "C16-words", "input": q, "correspondence": "zwharness vs ZwVerif.sem"}, found_input=False)
+        else:
+            ok += 1
+    return ok, len(progs)
+
+
 def run(ctx):
     ctx.prove("ZwVerif.Props.C16", THEOREMS)
     exe = ctx.harness("covharness")
@@ -149,7 +227,10 @@ def run(ctx):
                     nontriv.add(" ".join(ops))
         if bad > 10:
             break
-    ctx.cov["evaluations"] = evals
+    words_ok, words_n = aset_words(ctx)
+    ctx.cov["aset_word_checks"] = words_n
+    ctx.cov["aset_word_checks_ok"] = words_ok
+    ctx.cov["evaluations"] = evals + words_n
     ctx.cov["distinct_nontrivial"] = len(nontriv)
     ctx.cov["rule"] = ("all sequences of %d add/remove operations over a universe of %d addresses, each followed by every "
                        "intersect / is_covered / is_overlap query (exhaustive), at base addresses 0, 2^32-3, 2^63-3, 2^64-7; "
